@@ -6,4 +6,4 @@ package risor
 // randomness (time, rand) and the OS layer, no function of this package reads the wall clock, the process id, the host
 // name, a random source or the goroutine / call-stack state: a value derived from one of them differs from run to run
 // (seed C05g stamped gzip output with time.Now()). A new reference has to be listed here with its disposition.
-//@ scan[C05.clock.root] C05 extcalls time.Now,time.Since,time.Until,time.After,time.Tick,time.NewTimer,time.NewTicker,math/rand.*,math/rand/v2.*,crypto/rand.*,os.Getpid,os.Getppid,os.Hostname,runtime.NumGoroutine,runtime.Stack,runtime.Caller,runtime.Callers,-math/rand.init,-math/rand/v2.init,-crypto/rand.init:
+//@ scan[C05.clock.root] C05 extcalls time.Now,time.Since,time.Until,time.After,time.Tick,time.NewTimer,time.NewTicker,math/rand.*,math/rand/v2.*,crypto/rand.*,hash/maphash.*,os.Getpid,os.Getppid,os.Hostname,runtime.NumGoroutine,runtime.Stack,runtime.Caller,runtime.Callers,-math/rand.init,-math/rand/v2.init,-crypto/rand.init,-hash/maphash.init:
